@@ -1,5 +1,105 @@
-import ChumskyModel.Model.Spec
+/-
+  C05 — backtracking is atomic: abandoned paths leave no trace, kept paths lose nothing.
+-/
+import ChumskyModel.Proofs.Lemmas.Top
+set_option linter.unusedSimpArgs false
 namespace Chumsky
-theorem placeholder_C05 : True := trivial
-#print axioms placeholder_C05
+
+/-- **C05 (runs).** On success the secondary errors are the caller's, extended by exactly (one for one, in order)
+    the emissions of the surviving path of the PEG reading; the inspector is the reading's; on failure the
+    caller's secondary errors are still a prefix (so the caller's rewind restores them exactly). -/
+theorem c05_atomic (n : Nat) (env : Env) (m : Mode) (g : G) (st : St) (hm : env.memoOn = false) :
+    match run n env m g st, peg n env g st.ss st.ctx with
+    | .ok _ st', .ok _ s' em => (∃ new, st'.errs = st.errs ++ new ∧ EmsRel new em) ∧ st'.ss = s'
+    | .fail st', .fail => st.errs <+: st'.errs
+    | .panic w, .panic w' => w = w'
+    | .oof, .oof => True
+    | _, _ => False := by
+  have h := run_refines n env m g st hm
+  revert h
+  cases run n env m g st <;> cases peg n env g st.ss st.ctx <;> simp [Refines]
+  · exact fun h => ⟨h.errs, h.ss⟩
+  · exact fun h => h.errs
+
+/-- **C05 (top level).** When the parse produces an output, the reported errors are exactly the non-fatal errors
+    emitted along the path that produced it, in order. -/
+theorem c05_reported_errors (n : Nat) (env : Env) (m : Mode) (g : G) (hm : env.memoOn = false) (r : ParseResult)
+    (f : St) (h : parseTop n env m g = .result r f) (v : Val) (ho : r.output = some v) :
+    ∃ v' s em, pegTop n env g = .ok v' s em ∧ EmsRel f.errs em ∧ r.errs = f.errs.map (·.err) ∧ f.ss = s := by
+  have ht := parseTop_refines n env m g hm
+  rw [h] at ht
+  cases hp : pegTop n env g <;> rw [hp] at ht <;> simp only [TopRefines] at ht
+  · exact ⟨_, _, _, rfl, ht.2.2.1, ht.2.2.2, ht.2.1⟩
+  · rw [ho] at ht; simp at ht
+
+/-- the rewind lemma everything rests on: rewinding to a checkpoint taken in `st` from any state whose secondary
+    errors extend `st`'s restores position, secondary errors and inspector exactly -/
+theorem c05_rewind_restores (st st' : St) (h : st.errs <+: st'.errs) :
+    (st'.rewind st.save).pos = st.pos ∧ (st'.rewind st.save).errs = st.errs ∧ (st'.rewind st.save).insp = st.insp :=
+  ⟨rfl, by simp [take_of_prefix h], rfl⟩
+
+/-! ### abandoned paths leave no trace (laws of the reading; they transfer to the machine by `c05_atomic`) -/
+
+/-- an alternative that failed contributes no emission: the result is the next alternative's, from the same position -/
+theorem c05_abandoned_alternative (n : Nat) (env : Env) (a b : G) (s : SS) (ctx : Val)
+    (h : peg n env a s ctx = .fail) : peg (n + 1) env (.or_ a b) s ctx = peg n env b s ctx := by
+  simp only [peg, pegStep, sChoice, h]
+  cases peg n env b s ctx <;> rfl
+
+/-- a failed optional contributes nothing -/
+theorem c05_abandoned_optional (n : Nat) (env : Env) (a : G) (s : SS) (ctx : Val)
+    (h : peg n env a s ctx = .fail) : peg (n + 1) env (.orNot a) s ctx = .ok .none s [] := by
+  simp [peg, pegStep, h]
+
+/-- negative lookahead never contributes an emission, whatever happened inside -/
+theorem c05_lookahead_silent (n : Nat) (env : Env) (a : G) (s : SS) (ctx : Val) {v s' em}
+    (h : peg (n + 1) env (.not_ a) s ctx = .ok v s' em) : em = [] ∧ s' = s := by
+  simp only [peg, pegStep] at h
+  cases ha : peg n env a s ctx <;> simp [ha] at h
+  exact ⟨h.2.2, h.2.1.symm⟩
+
+/-! ### kept paths lose nothing -/
+
+/-- `and_is`: the emissions of both sub-parsers are kept (first the parser's, then the lookahead's) -/
+theorem c05_and_is_keeps (n : Nat) (env : Env) (a b : G) (s : SS) (ctx : Val) {va s1 e1 vb sb e2}
+    (ha : peg n env a s ctx = .ok va s1 e1) (hb : peg n env b s ctx = .ok vb sb e2) :
+    peg (n + 1) env (.andIs a b) s ctx = .ok va s1 (e1 ++ e2) := by
+  simp [peg, pegStep, SOut.andThen, ha, hb]
+
+/-- `rewind`: the emissions of the parser whose output is returned are kept -/
+theorem c05_rewind_keeps (n : Nat) (env : Env) (a : G) (s : SS) (ctx : Val) {va s1 e1}
+    (ha : peg n env a s ctx = .ok va s1 e1) : peg (n + 1) env (.rewind a) s ctx = .ok va s e1 := by
+  simp [peg, pegStep, SOut.andThen, ha]
+
+/-- `validate` emits at its own start position, after the emissions of its parser -/
+theorem c05_validate_emits (n : Nat) (env : Env) (f : ValFn) (a : G) (s : SS) (ctx : Val) {v s1 e1}
+    (ha : peg n env a s ctx = .ok v s1 e1) (hp : f.emitIf.eval v = true) :
+    peg (n + 1) env (.validate f a) s ctx =
+      .ok v s1 (e1 ++ List.replicate f.count (.user ⟨s.pos, env.ek.userErr (env.mkSpan s.pos s1.pos) f.msg⟩)) := by
+  simp [peg, pegStep, SOut.andThen, ha, hp]
+
+/-- a `custom` parser that fails after having consumed tokens is an ordinary failure (nothing of it survives) -/
+theorem c05_custom_fail_after_consuming (n : Nat) (env : Env) (msg : Nat) (b : G) (s : SS) (ctx : Val) :
+    peg (n + 2) env (.or_ (.custom (.take2Fail msg)) b) s ctx = peg (n + 1) env b s ctx := by
+  have : peg (n + 1) env (.custom (.take2Fail msg)) s ctx = .fail := by simp [peg, pegStep, sCustom]
+  exact c05_abandoned_alternative (n + 1) env _ b s ctx this
+
+/-- non-vacuity (the witness of the defect repaired by the `fix:` commit on `and_is`/`rewind`): the emission of a
+    validator under `and_is` is reported -/
+example :
+    (match parseTop 30 { toks := [120], memoOn := false } .emit (.andIs (.validate ⟨.always, 5, 1⟩ .any) .any) with
+      | .result r _ => (r.output, r.errs)
+      | _ => (none, [])) = (some (.tok 120), [⟨(0, 1), .custom 5, []⟩]) := by
+  decide
+
+#print axioms c05_atomic
+#print axioms c05_reported_errors
+#print axioms c05_rewind_restores
+#print axioms c05_abandoned_alternative
+#print axioms c05_abandoned_optional
+#print axioms c05_lookahead_silent
+#print axioms c05_and_is_keeps
+#print axioms c05_rewind_keeps
+#print axioms c05_validate_emits
+#print axioms c05_custom_fail_after_consuming
 end Chumsky
